@@ -738,6 +738,7 @@ def check(case, M):
 
         # ---- 4. programs: log_probability and encode
         mprogs = A.get("progs", [])
+        kept_enc = []      # (program, tensor returned by encode, its content when it was returned)
         for j, t in enumerate(progs):
             mp_ = mprogs[j]
             m_lp, m_prob, m_enc, m_nder, m_steps, m_ind, m_w, m_wraw = mp_
@@ -751,7 +752,10 @@ def check(case, M):
             with warnings.catch_warnings():
                 warnings.simplefilter("ignore")
                 ilp = outcome(lambda: float(lg.log_probability(rp).item()))
-                ienc = outcome(lambda: [int(z) for z in layer.encode(rp, treq).tolist()])
+                raw_enc = outcome(lambda: layer.encode(rp, treq))
+                ienc = outcome(lambda: [int(z) for z in raw_enc[1].tolist()]) if raw_enc[0] == "ok" else raw_enc
+                if ienc[0] == "ok":
+                    kept_enc.append((t, raw_enc[1], list(ienc[1])))
                 iprob = outcome(lambda: float(pg.probability(rp))) if pg is not None else ("err", "no converted grammar")
             # model vs spec (theorems C19_encode, C19_consistent)
             if isu and int(m_nder[1]) != len(ders):
@@ -836,6 +840,17 @@ def check(case, M):
                 fail("oracle", "exp(log_probability) differs from the probability of the derivation including the start weight",
                      f"{prog_str(t)}: exp(log_probability)={elp} start weight x product of rule weights={wstart * wrule} (starts={len(G['starts'])})",
                      finding="C19-F1" if multi else None)
+
+        # ---- 5. history independence of encode: a vector returned earlier still says what it said when it was returned
+        # (loss_mse keeps the encodings of a whole batch before stacking them)
+        for t, tens, at_return in kept_enc:
+            now = outcome(lambda: [int(z) for z in tens.tolist()])
+            if now[0] == "err" or now[1] != at_return:
+                fail("oracle", "the vector returned by encode for one program changed after another program was encoded",
+                     f"{prog_str(t)}: when returned={at_return} after {len(kept_enc)} calls={now[1]}")
+                break
+        if len(kept_enc) >= 2:
+            ntags["encode-history"] = True
 
     # ---- tags / key / sample
     nst = len(G["starts"])
